@@ -633,18 +633,18 @@ func ruleOptionTables(c *core.Ctx) {
 		}
 		for _, x := range callVertices(g, "pdf.(*Writer).writeXRefStream") {
 			o.At(fn.Site(x.Call, ""))
-			o.Require(g.GuardedBy(x.V, func(a core.Atom) bool { return has(a, "optXRefStream", false) }), "an xref stream is written without optXRefStream")
+			o.Require(g.GuardedBySampled(x.V, func(a core.Atom) bool { return has(a, "optXRefStream", false) }), "an xref stream is written without optXRefStream")
 		}
 		for _, x := range callVertices(g, "pdf.(*Writer).writeXRefTable") {
 			o.At(fn.Site(x.Call, ""))
-			o.Require(g.GuardedBy(x.V, func(a core.Atom) bool { return has(a, "optXRefStream", true) }), "an xref table is written although optXRefStream is set")
+			o.Require(g.GuardedBySampled(x.V, func(a core.Atom) bool { return has(a, "optXRefStream", true) }), "an xref table is written although optXRefStream is set")
 		}
 		wc := c.Prog.Func("pdf", "(*Writer).WriteCompressed")
 		wg := wc.Graph()
 		winfo := wc.Info()
 		for _, x := range callVertices(wg, "pdf.(*Writer).OpenStream") {
 			o.At(wc.Site(x.Call, ""))
-			ok := wg.GuardedBy(x.V, func(a core.Atom) bool {
+			ok := wg.GuardedBySampled(x.V, func(a core.Atom) bool {
 				// negated compound !HasAny(optObjStm) is false
 				s := core.ExprStr(a.Expr)
 				_ = winfo
